@@ -719,6 +719,9 @@ class coverpoint(object):
                     # gate when sampling occurs
                     self.iff_f = iff
                 else:
+                    # Don't leave the target's expression behind for 
+                    # the next constraint block to pick up
+                    ctor.clear_exprs()
                     raise Exception("Unknown iff type " + str(iff))
             
         self.bins = bins
